@@ -4,7 +4,7 @@
    header the harness generated from the media-range grammar, logged at its return:
      [op, hdr, cands, res, exc]
    hdr: the abstract ranges the header string was rendered from, cands: abstract media types,
-   res: quality in thousandths / index of the returned candidate (0 = none, -1 = not a
+   res: quality in millionths / index of the returned candidate (0 = none, -1 = not a
    candidate) / 1-0 for accepts, exc: "none" | "value" (a documented ValueError) | "other".
    The calls are independent of each other; vocabulary and sizes are unbounded here.
      P:exc        an exception other than the documented value errors escaped
